@@ -1,6 +1,19 @@
 package main
 
+import (
+	"fmt"
+	"os"
+
+	parser "github.com/acekingke/yaccgo/Parser"
+)
+
+var extraCmds = map[string]func([]string){}
+
 func dispatchMore(cmd string, args []string) bool {
+	if f, ok := extraCmds[cmd]; ok {
+		f(args)
+		return true
+	}
 	switch cmd {
 	case "packobs":
 		cmdPackObs(args)
@@ -20,9 +33,33 @@ func dispatchMore(cmd string, args []string) bool {
 	case "sessions":
 		cmdSessions(args)
 		return true
+	case "codeobs":
+		cmdCodeObs(args)
+		return true
+	case "fileobs":
+		cmdFileObs(args)
+		return true
+	case "filerender":
+		cmdFileRender(args)
+		return true
 	case "campaign":
 		cmdCampaign(args)
 		return true
 	}
 	return false
+}
+
+func init() {
+	extraCmds["lexdump"] = func(args []string) {
+		b, err := os.ReadFile(args[0])
+		if err != nil {
+			die("%v", err)
+		}
+		for _, t := range parser.VerifLex(string(b)) {
+			fmt.Printf("%d:%d %s %q\n", t.Line, t.Column, t.Kind, t.Value)
+			if t.Kind == "Error" {
+				break
+			}
+		}
+	}
 }
